@@ -371,6 +371,7 @@ def _lost(run, P):
                     if st.get(h, OK) == FRESH and record:
                         findings.append((n, h, "the function returns"))
             if target in holders:
+                st.pop(("t", target), None)
                 if st.get(target, OK) == FRESH and record:
                     findings.append((n, target, f"'{target}' is re-bound"))
                 if isinstance(a.value, ast.Name) and a.value.id in holders:
@@ -387,10 +388,32 @@ def _lost(run, P):
                 and dotted(n.ast.args[1]) == "NullASTNode":
             st = dict(st)
             st[n.ast.args[0].id] = OK
+        elif n.kind == "test" and isinstance(n.ast, ast.Call) and dotted(n.ast.func) == "isinstance" \
+                and len(n.ast.args) == 2 and isinstance(n.ast.args[0], ast.Name) \
+                and n.ast.args[0].id in holders and lab in ("T", "F"):
+            # isinstance(x, (NullASTNode, Block)) ... not isinstance(x, Block): what is left is null
+            h = n.ast.args[0].id
+            tt = n.ast.args[1]
+            names = {dotted(e_) for e_ in (tt.elts if isinstance(tt, ast.Tuple) else [tt])}
+            st = dict(st)
+            prior = st.get(("t", h))
+            if lab == "T":
+                st[("t", h)] = frozenset(names if prior is None else prior & names)
+            elif prior is not None:
+                st[("t", h)] = frozenset(prior - names)
+            if st.get(("t", h)) == frozenset({"NullASTNode"}):
+                st[h] = OK
         return st
 
     def meet(a, b):
-        return {k: max(a.get(k, OK), b.get(k, OK)) for k in set(a) | set(b)}
+        out = {}
+        for k in set(a) | set(b):
+            if isinstance(k, tuple):
+                if k in a and k in b:
+                    out[k] = a[k] | b[k]
+            else:
+                out[k] = max(a.get(k, OK), b.get(k, OK))
+        return out
 
     ins = forward(g, {}, transfer, edge, meet=meet, top=None)
     for n in g.nodes:
